@@ -5,7 +5,7 @@
     instance on every run. *)
 From Coq Require Import NArith ZArith QArith Qabs List Bool.
 From SV Require Import Bin.Struct Fmt.DmxCodes Fmt.DmxCodesProofs Fmt.DmxBin Fmt.DmxBinProofs Fmt.DmxKv1 Fmt.DmxKv1Proofs
-  Fmt.DmxScalar Fmt.DmxScalarProofs Fmt.DmxTyped Fmt.DmxTypedProofs Text.Str Text.Escape Text.Tokenizer Text.TokGen Fmt.DmxKv2 Fmt.DmxKv2Proofs Fmt.DmxKv2Nested Fmt.DmxKv2NestedProofs Fmt.DmxKv2Inst Num.Dec6 Fmt.DmxValText Fmt.DmxValTextProofs Fmt.DmxHeader Fmt.DmxHeaderProofs Gen.DmxCodes_gen.
+  Fmt.DmxScalar Fmt.DmxScalarProofs Fmt.DmxTyped Fmt.DmxTypedProofs Text.Str Text.Escape Text.Tokenizer Text.TokGen Fmt.DmxKv2 Fmt.DmxKv2Proofs Fmt.DmxKv2Nested Fmt.DmxKv2NestedProofs Fmt.DmxKv2Inst Num.Dec6 Fmt.DmxValText Fmt.DmxValTextProofs Fmt.DmxHeader Fmt.DmxHeaderProofs Fmt.DmxMembers Fmt.DmxMembersProofs Fmt.DmxMembersParse Fmt.DmxMembersParseProofs Fmt.DmxMembersKv2 Fmt.DmxMembersKv2Proofs Fmt.DmxKv1Sel Fmt.DmxKv1SelProofs Gen.DmxCodes_gen.
 Import ListNotations.
 
 (** The premises of the theorems below, for the configuration generated from today's source.  The check proves
@@ -16,7 +16,8 @@ Definition c14_instance_premises : bool :=
   kv2_tables_ok gen_tables && kv2_opts_ok gen_kv2_opts && vtnames_ok gen_tables gen_fold gen_vtnames &&
   float_text_cfg_ok gen_float_fmt && vec_text_components_ok gen_vec_text_written gen_vec_text_read &&
   color_text_ok gen_color_text_written gen_color_text_read &&
-  hdr_bin_ok gen_hdr && hdr_kv2_ok gen_hdr && hdr_modes_ok gen_hdr.
+  hdr_bin_ok gen_hdr && hdr_kv2_ok gen_hdr && hdr_modes_ok gen_hdr && cnt_cfg_ok gen_cnt &&
+  kv1_sel_ok gen_kv1_reserved_sel gen_kv1_dup_sel.
 
 (** The attribute type byte: encode then decode gives back the value type and the scalar/array flag, for all 14
     types and both shapes. *)
@@ -332,3 +333,211 @@ Proof. exact hdr_example. Qed.
 Theorem unicode_marker_forgotten_refuted :
   (hdr_bin_ok unmarked_hdr = false) /\ (reader_bin_utf8 unmarked_hdr UFormat = false) /\ (hb_utf8 unmarked_hdr UFormat = true).
 Proof. exact hdr_unmarked_refuted. Qed.
+
+(** * The element's dict of members below the binary document (round 3)
+
+    [Fmt/DmxBin.v] gives an element a name and a list of attribute records.  The implementation holds one ordered dict,
+    keyed by the casefolded attribute name, in which the name is the member keyed "name" — removable through the public
+    mapping API (clear, del, pop, popitem) and re-addable anywhere (the name setter, an attribute assigned as 'NAME').
+    [export_binary] writes a count and then one record per member its loop does not skip; count expression and skip
+    tests are read from the source ([cntcfg]). *)
+
+(** The count written is the number of records written, for every dict with pairwise distinct keys — with or without
+    the "name" member, wherever it sits.  ([cnt_cfg_ok]: the count is len(elem) - ('name' in elem._members) or the number
+    of members keyed other than "name"; both loops skip exactly the key "name"; Element.name reads that member, "" if
+    missing.) *)
+Theorem attr_count_is_records_written : forall c m, cnt_cfg_ok c = true -> keys_nodup m ->
+  count_written c m = Z.of_nat (length (records (cc_write_filter c) m)).
+Proof. exact count_is_records. Qed.
+
+(** Every operation of the mapping API (clear, del, pop, popitem, the name setter, item assignment, setdefault — for any
+    casefold function) keeps the keys pairwise distinct; hence so does every history on a fresh element. *)
+Theorem element_api_keeps_keys_distinct : forall fold m op, keys_nodup m -> keys_nodup (apply_op fold m op).
+Proof. exact apply_op_keys_nodup. Qed.
+Theorem element_api_history_keys_distinct : forall fold ops name, keys_nodup (run_ops fold ops (init_members name)).
+Proof. exact history_keys_nodup. Qed.
+
+(** For every API history on a fresh element the count written equals the records written. *)
+Theorem attr_count_is_records_after_any_history : forall c fold ops name, cnt_cfg_ok c = true ->
+  let m := run_ops fold ops (init_members name) in
+  count_written c m = Z.of_nat (length (records (cc_write_filter c) m)).
+Proof. exact history_count_is_records. Qed.
+
+(** The bytes written from the real dicts are the bytes of the document they denote (name = the "name" member or "",
+    attributes = the other members in dict order) ... *)
+Theorem members_export_is_document_export :
+  forall (cenc : enc -> str -> bytes) (cfg : dmxcfg) (cc : cntcfg), cnt_cfg_ok cc = true ->
+  forall v rd, Forall (fun r => keys_nodup (r_members r)) rd ->
+    export_raw cenc cfg cc v rd = export_bin cenc cfg v (map (abstract cc) rd).
+Proof. exact export_raw_is_export_bin. Qed.
+
+(** ... and parse back to it (composition with [dmx_bin_roundtrip]), versions 0-5. *)
+Theorem dmx_bin_members_roundtrip :
+  forall (cenc : enc -> str -> bytes) (cdec : enc -> bytes -> option str) (cfg : dmxcfg) (cc : cntcfg), cnt_cfg_ok cc = true ->
+  forall v rd, bin_cfg_ok cfg = true -> Forall (fun r => keys_nodup (r_members r)) rd ->
+    expressible cenc cdec cfg v (map (abstract cc) rd) ->
+    parse_bin cdec cfg v (export_raw cenc cfg cc v rd) = Some (map (abstract cc) rd).
+Proof. exact members_bin_roundtrip. Qed.
+
+(** Satisfiable: the configuration of the repaired tree, and a two-element graph whose root was cleared and refilled
+    (no "name" member) and whose child had its name popped and set again (name member last), versions 5 and 1. *)
+Theorem members_premises_satisfiable :
+  cnt_cfg_ok good_cnt = true /\
+  map (fun r => (has_key s_name (r_members r), length (r_members r))) hist_rdoc = [(false, 2%nat); (true, 2%nat)] /\
+  (forall v, v = 5%N \/ v = 1%N ->
+     parse_bin iddec good_cfg v (export_raw idenc good_cfg good_cnt v hist_rdoc) = Some (map (abstract good_cnt) hist_rdoc)).
+Proof. split; [exact good_cnt_ok | split; [exact (proj1 hist_rdoc_shape) | exact members_roundtrip_example]]. Qed.
+
+(** [len(elem) - 1] (the class of seeded fault c14_3) fails exactly [count_expr_ok]: after "clear, then assign" the count
+    is one less than the records, the exported graph is not read back; untouched elements are written as before. *)
+Theorem attr_count_minus_one_refuted :
+  count_expr_ok minus_one_cnt = false /\ write_filter_ok minus_one_cnt = true /\ collect_filter_ok minus_one_cnt = true /\
+  name_getter_ok minus_one_cnt = true /\
+  (let m := run_ops (fun s => s) hist_ops (init_members [110]%N) in
+   count_written minus_one_cnt m = 1%Z /\ length (records (cc_write_filter minus_one_cnt) m) = 2%nat) /\
+  parse_bin iddec good_cfg 5 (export_raw idenc good_cfg minus_one_cnt 5 hist_rdoc) <> Some (map (abstract minus_one_cnt) hist_rdoc) /\
+  (forall name, count_written minus_one_cnt (init_members name) = 0%Z).
+Proof. exact count_minus_one_refuted. Qed.
+
+(** A writing loop that tests the attribute's case-preserved name instead of the dict key (the defect class repaired
+    in round 1): after [elem['NAME'] = 'x'] the only member is keyed "name", the count is 0, one record is written. *)
+Theorem attr_loop_on_real_name_refuted :
+  write_filter_ok real_name_cnt = false /\ count_expr_ok real_name_cnt = true /\
+  (let m := run_ops ascii_lower [OSet [78; 65; 77; 69]%N (VStr (Scalar [120]%N))] (init_members [110]%N) in
+   map fst m = [s_name] /\ count_written real_name_cnt m = 0%Z /\ length (records (cc_write_filter real_name_cnt) m) = 1%nat).
+Proof. exact write_filter_on_real_name_refuted. Qed.
+
+(** * The dict the readers build (round 3)
+
+    [Element(name, type, uuid)] starts with the member keyed "name"; parse_bin and _parse_kv2_element store every record
+    read by [elem._members[KEY] = Attribute(attr_name, ...)].  The mapping API looks [name.casefold()] up, so KEY must be
+    the casefolded name; which expression KEY is at each of the three sites is read from the source ([parsecfg]). *)
+
+(** Built from a document element whose folded attribute names are pairwise distinct and not "name": the name member,
+    then one member per record under its casefolded name, in order. *)
+Theorem reader_dict_shape : forall fold e, elem_names_ok fold e ->
+  parsed_members fold KFolded e =
+  (s_name, {| aname := s_name; adata := VStr (Scalar (ename e)) |}) :: map (fun a => (fold (aname a), a)) (eattrs e).
+Proof. exact parsed_members_shape. Qed.
+
+(** It is keyed by the casefolded names (the invariant [elem[name]], [in], [del] rely on), keys pairwise distinct, ... *)
+Theorem reader_dict_keyed_by_casefolded_names : forall fold e, fold s_name = s_name -> elem_names_ok fold e ->
+  keyed_by_fold fold (parsed_members fold KFolded e) /\ keys_nodup (parsed_members fold KFolded e).
+Proof. exact parsed_members_keyed. Qed.
+
+(** ... [elem[a.name]] finds every attribute [a] that was read, ... *)
+Theorem reader_dict_lookup_finds_every_attribute : forall fold e a, elem_names_ok fold e -> In a (eattrs e) ->
+  lookup fold (parsed_members fold KFolded e) (aname a) = Some a.
+Proof. exact parsed_lookup. Qed.
+
+(** ... and the element denotes the document element it was built from (name, attributes in order). *)
+Theorem reader_dict_denotes_the_document_element : forall fold cc e, name_getter_ok cc = true -> elem_names_ok fold e ->
+  abstract cc (parsed_relem fold KFolded e) = e.
+Proof. exact parsed_abstract. Qed.
+
+(** Every operation of the mapping API keeps the dict keyed by the casefolded names ([fold "name" = "name"]: a run-time
+    obligation for str.casefold); hence so does every history on a fresh element. *)
+Theorem element_api_keeps_dict_keyed : forall fold m op, fold s_name = s_name -> keyed_by_fold fold m -> keyed_by_fold fold (apply_op fold m op).
+Proof. exact apply_op_keyed. Qed.
+Theorem element_api_history_dict_keyed : forall fold ops name, fold s_name = s_name -> keyed_by_fold fold (run_ops fold ops (init_members name)).
+Proof. exact history_keyed. Qed.
+
+(** Composition (binary, versions 0-5): export the real dicts, parse the bytes, build the dicts — each is the canonical
+    form of the dict exported: the name member (or "" if it was missing) first, every other member under its key, in order. *)
+Theorem dmx_bin_members_reader_roundtrip :
+  forall (cenc : enc -> str -> bytes) (cdec : enc -> bytes -> option str) (cfg : dmxcfg) (cc : cntcfg) (fold : str -> str),
+  cnt_cfg_ok cc = true -> bin_cfg_ok cfg = true ->
+  forall v rd, Forall (fun r => keys_nodup (r_members r)) rd -> Forall (fun r => keyed_by_fold fold (r_members r)) rd ->
+    expressible cenc cdec cfg v (map (abstract cc) rd) ->
+    exists d, parse_bin cdec cfg v (export_raw cenc cfg cc v rd) = Some d /\
+              map (parsed_members fold KFolded) d = map (fun r => canonical cc (r_members r)) rd.
+Proof. exact members_bin_reader_roundtrip. Qed.
+
+(** A reader that stores a record under the name as written fails [parse_keys_ok]: the attribute "Ab" is in the dict
+    but [elem["Ab"]] does not find it; with the casefolded key both "Ab" and "aB" find it. *)
+Theorem reader_key_as_written_refuted :
+  parse_keys_ok {| pk_bin := KAsWritten; pk_kv2_attr := KFolded; pk_kv2_inline := KFolded; pk_init_key := s_name; pk_init_name := s_name |} = false /\
+  lookup ascii_lower (parsed_members ascii_lower KAsWritten ab_elem) [65; 98]%N = None /\
+  keyed_by_foldb ascii_lower (parsed_members ascii_lower KAsWritten ab_elem) = false /\
+  lookup ascii_lower (parsed_members ascii_lower KFolded ab_elem) [65; 98]%N = Some (int_attr [65; 98]%N 5) /\
+  lookup ascii_lower (parsed_members ascii_lower KFolded ab_elem) [97; 66]%N = Some (int_attr [65; 98]%N 5) /\
+  keyed_by_foldb ascii_lower (parsed_members ascii_lower KFolded ab_elem) = true.
+Proof. exact key_as_written_refuted. Qed.
+Theorem reader_dict_premises_satisfiable : parse_keys_ok good_parse && init_member_ok good_parse = true /\ elem_names_ok ascii_lower ab_elem.
+Proof. split; [exact good_parse_ok | exact names_ok_example]. Qed.
+
+(** * KeyValues2 at the level of the dict (round 3)
+
+    [_export_kv2] writes the line ["name" "string" <Element.name>] and then one record per member its loop keeps (skip
+    test [attr.name == 'name']: the case-preserved name, read from the source); [_parse_kv2_element] sends a record that
+    passes its name test to the [name] setter and stores every other record under KEY. *)
+
+(** What the reader builds from what the writer wrote for a dict keyed by the casefolded names: a name member holding
+    Element.name, then every member keyed other than "name" under its key, in order — for either name test and every
+    skip test that skips only the member keyed "name" ([kv2_filter_ok]). *)
+Theorem kv2_dict_read_of_written : forall fold t cc f (m : members) block_name,
+  fold s_name = s_name -> name_getter_ok cc = true -> kv2_filter_ok f = true ->
+  keys_nodup m -> keyed_by_fold fold m -> name_is_string m ->
+  exists an, adata an = VStr (Scalar (rname cc m)) /\ fold (aname an) = s_name /\
+    kv2_read fold t KFolded block_name (kv2_written cc f m) = (s_name, an) :: records (FKeyIs s_name) m.
+Proof. exact kv2_read_written. Qed.
+
+(** Hence the element read denotes the element written: same name, same attribute records in the same order ... *)
+Theorem kv2_dict_roundtrip : forall fold t cc f (r : relem) block_name,
+  fold s_name = s_name -> name_getter_ok cc = true -> kv2_filter_ok f = true ->
+  keys_nodup (r_members r) -> keyed_by_fold fold (r_members r) -> name_is_string (r_members r) ->
+  abstract cc {| r_type := r_type r; r_uuid := r_uuid r; r_members := kv2_read fold t KFolded block_name (kv2_written cc f (r_members r)) |}
+  = abstract cc r.
+Proof. exact kv2_members_roundtrip. Qed.
+
+(** ... for every history of the mapping API on a fresh element that leaves the name member, if any, a string. *)
+Theorem kv2_dict_roundtrip_after_any_history : forall fold t cc f ops name ty uu block_name,
+  fold s_name = s_name -> name_getter_ok cc = true -> kv2_filter_ok f = true ->
+  let m := run_ops fold ops (init_members name) in
+  name_is_string m ->
+  abstract cc {| r_type := ty; r_uuid := uu; r_members := kv2_read fold t KFolded block_name (kv2_written cc f m) |}
+  = abstract cc {| r_type := ty; r_uuid := uu; r_members := m |}.
+Proof. exact kv2_members_roundtrip_after_history. Qed.
+
+(** [clear(); elem['NAME'] = 'x'; elem['Ab'] = 5]: with the skip test of _export_kv2 the member spelled NAME is written as a
+    record too and the reader stores it under "name" again: spelling kept; with the dict-key test of export_binary, or with
+    a casefolding name test in the reader, it comes back spelled "name".  All denote the same element. *)
+Theorem kv2_dict_name_spelling_example :
+  map fst kv2_hist_m = [s_name; [97; 98]%N] /\
+  name_is_string kv2_hist_m /\
+  option_map aname (mget s_name (kv2_read ascii_lower TExact KFolded [] (kv2_written good_cnt (FRealNameIs s_name) kv2_hist_m))) = Some name_upper /\
+  option_map aname (mget s_name (kv2_read ascii_lower TExact KFolded [] (kv2_written good_cnt (FKeyIs s_name) kv2_hist_m))) = Some s_name /\
+  option_map aname (mget s_name (kv2_read ascii_lower TFolded KFolded [] (kv2_written good_cnt (FRealNameIs s_name) kv2_hist_m))) = Some s_name /\
+  map fst (kv2_read ascii_lower TExact KFolded [] (kv2_written good_cnt (FRealNameIs s_name) kv2_hist_m)) = [s_name; [97; 98]%N].
+Proof. exact kv2_name_spelling_example. Qed.
+
+(** A loop that skips a member keyed otherwise fails [kv2_filter_ok] and loses that attribute. *)
+Theorem kv2_dict_skip_of_another_key_refuted :
+  kv2_filter_ok (FKeyIs [97; 98]%N) = false /\ kv2_filter_ok (FRealNameIs s_name) = true /\ kv2_filter_ok (FKeyIs s_name) = true /\
+  map fst (kv2_read ascii_lower TExact KFolded [] (kv2_written good_cnt (FKeyIs [97; 98]%N) kv2_hist_m)) = [s_name].
+Proof. exact kv2_skip_other_key_refuted. Qed.
+
+(** * from_kv1: which name of a leaf its two tests read (round 3)
+
+    [from_kv1_sel] is from_kv1 with the name read by the reserved-name test and by the duplicate-leaf test as parameters
+    (casefolded [child.name] / case-preserved [child.real_name]; read from the source).  With both on the casefolded name
+    it is [from_kv1], so the bridge theorem holds for it. *)
+Theorem kv1_bridge_roundtrip_by_name_selection : forall fold cfg rs ds,
+  kv1_cfg_ok cfg = true -> fold_ok fold cfg -> kv1_sel_ok rs ds = true ->
+  forall t, wf_kv t = true -> to_kv1 fold cfg (from_kv1_sel fold cfg rs ds t) = Some t.
+Proof. exact kv1_bridge_roundtrip_sel. Qed.
+
+(** The reserved-name test on the case-preserved name (the class of seeded fault c14_4): block "Entity" { "Name" "Fred" }
+    — the leaf is inlined, overwrites the element's own name, and the block comes back named "Fred". *)
+Theorem kv1_reserved_test_on_real_name_is_refuted :
+  kv1_cfg_ok spelled_cfg = true /\ wf_kv entity_tree = true /\
+  to_kv1 kv_lower spelled_cfg (from_kv1_sel kv_lower spelled_cfg NFolded NFolded entity_tree) = Some entity_tree /\
+  to_kv1 kv_lower spelled_cfg (from_kv1_sel kv_lower spelled_cfg NReal NFolded entity_tree)
+  = Some (KBlock (Some [70; 114; 101; 100]%N) [KLeaf [78; 97; 109; 101]%N [70; 114; 101; 100]%N]).
+Proof. exact kv1_reserved_test_on_real_name_refuted. Qed.
+
+(** The duplicate test on the case-preserved name: "Key" and "KEY" are both inlined under one dict key, one is lost. *)
+Theorem kv1_duplicate_test_on_real_name_is_refuted :
+  to_kv1 kv_lower spelled_cfg (from_kv1_sel kv_lower spelled_cfg NFolded NFolded dup_tree) = Some dup_tree /\
+  to_kv1 kv_lower spelled_cfg (from_kv1_sel kv_lower spelled_cfg NFolded NReal dup_tree) = Some (KBlock (Some [66]%N) [KLeaf [75; 69; 89]%N [50]%N]).
+Proof. exact kv1_duplicate_test_on_real_name_refuted. Qed.
